@@ -580,6 +580,7 @@ def run(ctx):
     signature_equivalence(ctx)
     overridden_virtuals_are_replaced(ctx)
     convertibility_through_bases(ctx)
+    declared_virtuals_are_collected(ctx)
 
     # ------------------------------------------------------------ R10.2
     fd = db.fn("InterrogateBuilder::define_struct_type")
@@ -808,3 +809,73 @@ def convertibility_through_bases(ctx):
         ctx.ob("R10.9", "CPPStructType::is_convertible_to|return-true#%d|behind-a-positive-answer" % i, ok, f.loc(r),
                "`return true` is %sbehind a nested is_convertible_to() that answered yes" % ("" if ok else "NOT "))
     ctx.floor("R10.9", "`return true` sites", len(rets), 3)
+
+
+def _conjuncts(n):
+    n = strip_casts(peel(n))
+    if n is not None and n.get("k") == "bin" and n.get("op") == "&&":
+        return _conjuncts(n["x"]) + _conjuncts(n["y"])
+    return [n]
+
+
+def _storage_bit_test(n):
+    """(enumerator, 'set'|'clear') for `(X->_storage_class & C) != 0`, `... == 0`, or the bare `X->_storage_class & C`."""
+    n = strip_casts(peel(n))
+    if n is None:
+        return None
+    pol = "set"
+    if n.get("k") == "un" and n.get("op") == "!":
+        pol = "clear"
+        n = strip_casts(peel(n["e"]))
+    ca = G.cmp_atom(n) if n is not None and n.get("k") == "bin" and n.get("op") in ("==", "!=") else None
+    if ca:
+        op, x, y = ca
+        if const_int(y) == 0:
+            inner = x
+        elif const_int(x) == 0:
+            inner = y
+        else:
+            return None
+        if op == "==":
+            pol = "clear" if pol == "set" else "set"
+        n = strip_casts(peel(inner))
+    if n is None or n.get("k") != "bin" or n.get("op") != "&":
+        return None
+    for a, b in ((n["x"], n["y"]), (n["y"], n["x"])):
+        a, b = strip_casts(peel(a)), strip_casts(peel(b))
+        if a is not None and (field_of(a) or "").endswith("::_storage_class") and b is not None and b.get("k") == "ref" and "SC_" in (b.get("n") or ""):
+            return (b["n"].split("::")[-1], pol)
+    return None
+
+
+def declared_virtuals_are_collected(ctx):
+    """R10.10: a class is polymorphic (and its destructor virtual, and its overriders `inherited virtual`) through the list
+    get_virtual_funcs() builds.  The last loop adds the class's OWN members: every member declared `virtual`, however it
+    is defined (`= default` included).  The only members left out are deleted ones (a choice of this code base, kept).
+    (Seed S8-C10: the SC_deleted test became SC_defaulted; `virtual ~T() = default;` no longer made T polymorphic.)"""
+    db = ctx.db
+    ctx.rule("R10.10", "in get_virtual_funcs the own members pushed onto the list are exactly those with SC_virtual set; the only other storage-class bit the condition may test is SC_deleted (clear)")
+    fs = [g for g in db.functions if g.name == "CPPStructType::get_virtual_funcs"]
+    f = fs[0] if fs else None
+    if f is None:
+        ctx.broken("R10.10: CPPStructType::get_virtual_funcs not found")
+        return
+    n = 0
+    for c in f.walk():
+        if not (c.get("k") == "call" and callee_short(c) == "push_back" and c.get("a") and local_ref(c["a"][0]) is not None):
+            continue
+        n += 1
+        conds = []
+        for a in f.ancestors(c):
+            if a.get("k") == "if" and any(z is c for z in walk(a.get("then") or {})):
+                conds += _conjuncts(a["c"])
+            if a.get("k") in ("for", "forrange", "while"):
+                pass
+        tests = [_storage_bit_test(x) for x in conds]
+        unknown = [show(x) for x, t in zip(conds, tests) if t is None]
+        got = {t for t in tests if t is not None}
+        ok = ("SC_virtual", "set") in got and not unknown and got <= {("SC_virtual", "set"), ("SC_deleted", "clear")}
+        ctx.ob("R10.10", "get_virtual_funcs|push_back(%s)|exactly-the-declared-virtuals" % local_ref(c["a"][0]).get("n"), ok, f.loc(c),
+               "own members are collected under: %s%s" % (", ".join("%s %s" % t for t in sorted(got)) or "no storage-class test",
+                                                       ("; and an unrecognised condition: " + "; ".join(unknown)) if unknown else ""))
+    ctx.floor("R10.10", "push_back of own members in get_virtual_funcs", n, 1)
